@@ -420,6 +420,15 @@ def canon(t):
             return ("const", len(x[2][0][1]))          # len("images-")
         if k == "call" and x[1] == ("global", "list") and len(x[2]) == 1 and not x[3] and x[2][0][0] == "comp" and x[2][0][1] == "gen":
             return ("comp", "list") + x[2][0][2:]          # list(<generator expression>) is the list comprehension
+        if k == "idx" and x[1][0] in ("ifexp", "gate") and isinstance(x[2], int):
+            # an element of a sequence chosen by a condition: the element chosen by that condition
+            a_ = fn(("idx", x[1][2], x[2])) or ("idx", x[1][2], x[2])
+            b_ = fn(("idx", x[1][3], x[2])) or ("idx", x[1][3], x[2])
+            return (x[1][0], x[1][1], a_, b_)
+        if k == "sub" and x[1][0] in ("ifexp", "gate") and x[2][0] in ("ifexp", "gate") and x[1][1] == x[2][1]:
+            # container and key chosen by the same condition
+            return (x[1][0], x[1][1], fn(("sub", x[1][2], x[2][2])) or ("sub", x[1][2], x[2][2]),
+                    fn(("sub", x[1][3], x[2][3])) or ("sub", x[1][3], x[2][3]))
         if k == "idx" and x[1][0] in ("tuple", "list") and isinstance(x[2], int) and x[2] < len(x[1][1]) \
                 and not any(e[0] == "starred" for e in x[1][1]):
             return x[1][1][x[2]]          # (a, b)[0]
@@ -543,6 +552,8 @@ def truth(t, decide):
     k = t[0]
     if k == "const":
         return bool(t[1])
+    if k in ("list", "tuple", "set", "dict") and not any(isinstance(e, tuple) and e and e[0] == "starred" for e in t[1]):
+        return bool(t[1])          # a container literal is true exactly when it is not empty
     if k == "unary" and t[1] == "not":
         v = truth(t[2], decide)
         return None if v is None else (not v)
@@ -1362,17 +1373,41 @@ class Extractor(object):
         return None
 
     def _fresh_each_iteration(self, s):
-        """every name the loop body assigns (besides the loop target) is assigned by a top-level statement of the body before
-        anything in the body reads it: no value is carried from one iteration to the next"""
+        """every name the loop body assigns (besides the loop target) is written before it is read, in evaluation order, on the
+        way through the body: no value is carried from one iteration to the next"""
         names = self._assigned_names(s.body) - self._assigned_names([ast.Assign(targets=[s.target], value=ast.Constant(None))])
+
+        def occurrences(node):
+            """Name nodes in evaluation order (the value of an assignment before its targets)"""
+            if isinstance(node, ast.Assign):
+                for x in occurrences(node.value):
+                    yield x
+                for t in node.targets:
+                    for x in occurrences(t):
+                        yield x
+                return
+            if isinstance(node, ast.AugAssign):
+                for x in occurrences(node.value):
+                    yield x
+                for x in occurrences(node.target):
+                    yield ast.Name(id=x.id, ctx=ast.Load()) if isinstance(x, ast.Name) else x
+                return
+            if isinstance(node, ast.Name):
+                yield node
+                return
+            for c in ast.iter_child_nodes(node):
+                for x in occurrences(c):
+                    yield x
         for n in names:
             first = None
             for st in s.body:
-                if any(isinstance(x, ast.Name) and x.id == n for x in ast.walk(st)):
-                    first = st
+                for x in occurrences(st):
+                    if x.id == n:
+                        first = x
+                        break
+                if first is not None:
                     break
-            if not (isinstance(first, ast.Assign) and len(first.targets) == 1 and isinstance(first.targets[0], ast.Name)
-                    and first.targets[0].id == n and not any(isinstance(x, ast.Name) and x.id == n for x in ast.walk(first.value))):
+            if first is None or not isinstance(first.ctx, ast.Store):
                 return False
         return True
 
@@ -1595,15 +1630,25 @@ class Extractor(object):
                 self.loop_pre[(n, lid)] = pre
                 env_body[n] = ("carried", n, lid) if pre is None else ("phi", (pre, ("carried", n, lid)))
             if isinstance(s, ast.For):
+                flt = None
+                if it[0] == "comp" and it[1] in ("gen", "list") and len(it[3]) == 1:
+                    # for x in (f(y) for y in coll if test(y)):  ==  for y in coll: if not test(y): continue; x = f(y)
+                    flt = it
+                    it = flt[3][0][1]
                 kind, it, d = dict_iter(it)
                 el = ("elem", it, lid)
                 if kind == "values":
                     el = ("sub", d, el)
                 elif kind == "items":
                     el = ("tuple", (el, ("sub", d, el)))
-                self.bind(s.target, el, env_body, guards, loops, s)
-                lp = loops + ((lid, it),)
                 g2 = guards
+                if flt is not None:
+                    var_ = ("bound", flt[3][0][0][1])
+                    put_ = lambda z, el=el: subst(z, lambda y: el if y == var_ else None)
+                    g2 = guards + tuple((put_(c), True) for c in flt[3][0][2])
+                    el = put_(flt[2])
+                self.bind(s.target, el, env_body, g2, loops, s)
+                lp = loops + ((lid, it),)
             else:
                 test = self.expr(s.test, env_body, guards, loops + ((lid, ("const", "while")),))
                 lp = loops + ((lid, ("unary", "while", test)),)
